@@ -157,57 +157,125 @@ theorem wt_noDead (vtys : List CSem.Ty) (ret : CSem.Ty) (st : Stmt) : ∀ (lb lc
     split at h
     · cases h; simp [noDead, declTys]
     · cases h
+  | pload d dt k t w c0 x =>
+    intro lb lc nd nd' h
+    simp only [Stmt.wt] at h
+    split at h
+    · cases h; simp [noDead, declTys]
+    · cases h
+  | callp dst rt fn pargs args =>
+    intro lb lc nd nd' h
+    simp only [Stmt.wt] at h
+    split at h
+    · cases h; simp [noDead, declTys]
+    · cases h
 
 /-! ## The simulation statement -/
 
 /-- Every call names a function of the program `P` with the declared types (`CSem2.callsOK`, in the form the
     statement lemmas decompose), nothing being required when `P` is empty; and the array statements agree
     with the layout `cnts` (`CSem2.arrsOK`). -/
-def frag (P : List CSem2.Func) (cnts : List Nat) : Stmt → Bool
-  | .decl _ _ (some e) | .assign _ _ e | .expr e | .ret e => (P.isEmpty || e.callsOK P) && e.arrsOK cnts
-  | .skip | .decl _ _ none | .incdec .. | .break_ | .continue_ => true
-  | .seq a b => frag P cnts a && frag P cnts b
-  | .ite c a => ((P.isEmpty || c.callsOK P) && c.arrsOK cnts) && frag P cnts a
-  | .itee c a b => ((P.isEmpty || c.callsOK P) && c.arrsOK cnts) && (frag P cnts a && frag P cnts b)
-  | .while_ c b => ((P.isEmpty || c.callsOK P) && c.arrsOK cnts) && frag P cnts b
-  | .dowhile b c => ((P.isEmpty || c.callsOK P) && c.arrsOK cnts) && frag P cnts b
-  | .for_ none st b => frag P cnts st && frag P cnts b
-  | .for_ (some c) st b => ((P.isEmpty || c.callsOK P) && c.arrsOK cnts) && (frag P cnts st && frag P cnts b)
+def frag (P : List CSem2.Func) (cnts : List Nat) (W : List (CSem.Ty × Nat × Nat)) : Stmt → Bool
+  | .decl i _ (some e) | .assign i _ e =>
+    ((P.isEmpty || e.callsOK P) && e.arrsOK cnts) && decide (W.length ≤ i)
+  | .expr e | .ret e => (P.isEmpty || e.callsOK P) && e.arrsOK cnts
+  | .decl i _ none | .incdec i _ _ => decide (W.length ≤ i)
+  | .skip | .break_ | .continue_ => true
+  | .seq a b => frag P cnts W a && frag P cnts W b
+  | .ite c a => ((P.isEmpty || c.callsOK P) && c.arrsOK cnts) && frag P cnts W a
+  | .itee c a b => ((P.isEmpty || c.callsOK P) && c.arrsOK cnts) && (frag P cnts W a && frag P cnts W b)
+  | .while_ c b => ((P.isEmpty || c.callsOK P) && c.arrsOK cnts) && frag P cnts W b
+  | .dowhile b c => ((P.isEmpty || c.callsOK P) && c.arrsOK cnts) && frag P cnts W b
+  | .for_ none st b => frag P cnts W st && frag P cnts W b
+  | .for_ (some c) st b =>
+    ((P.isEmpty || c.callsOK P) && c.arrsOK cnts) && (frag P cnts W st && frag P cnts W b)
   | .case_ _ | .default_ => true
-  | .switch_ e b => ((P.isEmpty || e.callsOK P) && e.arrsOK cnts) && frag P cnts b
-  | .call dst rt fn args => P.isEmpty || callsOK P (.call dst rt fn args)
-  | .adecl i t n xb => arrsOK cnts (.adecl i t n xb)
-  | .aload d dt a t n xb x => arrsOK cnts (.aload d dt a t n xb x)
+  | .switch_ e b => ((P.isEmpty || e.callsOK P) && e.arrsOK cnts) && frag P cnts W b
+  | .call dst rt fn args =>
+    (P.isEmpty || callsOK P (.call dst rt fn args)) &&
+      (match dst with
+       | some (i, _) => decide (W.length ≤ i)
+       | none => true)
+  | .adecl i t n xb => arrsOK cnts (.adecl i t n xb) && decide (W.length ≤ i)
+  | .aload d dt a t n xb x =>
+    arrsOK cnts (.aload d dt a t n xb x) && (decide (W.length ≤ d) && decide (W.length ≤ a))
   | .astore a t n xb x v =>
-    (decide (1 ≤ n) && decide (cnts[a]? = some n) && decide (xb = xbase cnts a)) &&
-      ((P.isEmpty || v.callsOK P) && v.arrsOK cnts)
+    ((decide (1 ≤ n) && decide (cnts[a]? = some n) && decide (xb = xbase cnts a)) &&
+      ((P.isEmpty || v.callsOK P) && v.arrsOK cnts)) && decide (W.length ≤ a)
+  | .pload d _ k t w c0 _ => decide (W.length ≤ d) && decide (W[k]? = some (t, w, c0))
+  | .callp dst rt fn pargs args =>
+    ((P.isEmpty || callsOK P (.callp dst rt fn pargs args)) && arrsOK cnts (.callp dst rt fn pargs args)) &&
+      ((match dst with
+        | some (i, _) => decide (W.length ≤ i)
+        | none => true) && pargs.all fun a => decide (W.length ≤ a.1))
 
-theorem frag_of_callsOK (P : List CSem2.Func) (cnts : List Nat) (st : Stmt) (h : callsOK P st = true)
-    (ha : arrsOK cnts st = true) : frag P cnts st = true := by
+/-- the windows of a function: element type, length, first cell -/
+def funcW (f : CSem2.Func) : List (CSem.Ty × Nat × Nat) :=
+  (List.range f.pwin.length).map fun j => ((f.pwin.getD j default).1, (f.pwin.getD j default).2, f.wbase j)
+
+theorem funcW_length (f : CSem2.Func) : (funcW f).length = f.pwin.length := by simp [funcW]
+
+theorem funcW_get (f : CSem2.Func) {k : Nat} {t : CSem.Ty} {w c0 : Nat} :
+    (funcW f)[k]? = some (t, w, c0) ↔ f.pwin[k]? = some (t, w) ∧ c0 = f.wbase k := by
+  unfold funcW
+  by_cases hk : k < f.pwin.length
+  · simp only [List.getElem?_map, List.getElem?_range hk, Option.map_some, Option.some.injEq, Prod.mk.injEq,
+      List.getD, List.getElem?_eq_getElem hk, Option.getD_some]
+    constructor
+    · rintro ⟨h1, h2, h3⟩; exact ⟨by rw [← h1, ← h2], h3.symm⟩
+    · rintro ⟨h1, h2⟩
+      have : f.pwin[k] = (t, w) := h1
+      rw [this]; exact ⟨rfl, rfl, h2.symm⟩
+  · have h1 : (List.map (fun j => ((f.pwin.getD j default).1, (f.pwin.getD j default).2, f.wbase j))
+        (List.range f.pwin.length))[k]? = none := by
+      rw [List.getElem?_eq_none]; simp; omega
+    rw [h1, List.getElem?_eq_none (by omega)]
+    simp
+
+theorem frag_of_callsOK (P : List CSem2.Func) (f : CSem2.Func) (st : Stmt) (h : callsOK P st = true)
+    (ha : arrsOK f.cnts st = true) (hp : ptrsOK f.pwin f.wbase st = true) :
+    frag P f.cnts (funcW f) st = true := by
   induction st with
-  | decl i t init => cases init <;> simp_all [frag, callsOK, arrsOK]
-  | for_ c st b ihs ihb => cases c <;> simp_all [frag, callsOK, arrsOK]
-  | _ => simp_all [frag, callsOK, arrsOK]
+  | decl i t init => cases init <;> simp_all [frag, callsOK, arrsOK, ptrsOK, funcW_length]
+  | for_ c st b ihs ihb => cases c <;> simp_all [frag, callsOK, arrsOK, ptrsOK, funcW_length]
+  | call dst rt fn args => cases dst <;> simp_all [frag, callsOK, arrsOK, ptrsOK, funcW_length]
+  | callp dst rt fn pargs args =>
+    simp only [frag, ptrsOK, funcW_length, Bool.and_eq_true, Bool.or_eq_true] at hp ⊢
+    exact ⟨⟨Or.inr h, ha⟩, hp⟩
+  | pload d dt k t w c0 x =>
+    simp only [ptrsOK, Bool.and_eq_true, decide_eq_true_eq] at hp
+    simp only [frag, Bool.and_eq_true, decide_eq_true_eq, funcW_length, funcW_get]
+    exact ⟨hp.1.1, hp.1.2, hp.2⟩
+  | _ => simp_all [frag, callsOK, arrsOK, ptrsOK, funcW_length]
 
 /-- in a single function (`P = []`) no call is ever executed: nothing is required of it -/
-theorem frag_nil (cnts : List Nat) (st : Stmt) (ha : arrsOK cnts st = true) : frag [] cnts st = true := by
+theorem frag_nil (f : CSem2.Func) (st : Stmt) (ha : arrsOK f.cnts st = true)
+    (hp : ptrsOK f.pwin f.wbase st = true) : frag [] f.cnts (funcW f) st = true := by
   induction st with
-  | decl i t init => cases init <;> simp_all [frag, arrsOK]
-  | for_ c st b ihs ihb => cases c <;> simp_all [frag, arrsOK]
-  | _ => simp_all [frag, arrsOK]
+  | decl i t init => cases init <;> simp_all [frag, arrsOK, ptrsOK, funcW_length]
+  | for_ c st b ihs ihb => cases c <;> simp_all [frag, arrsOK, ptrsOK, funcW_length]
+  | call dst rt fn args => cases dst <;> simp_all [frag, arrsOK, ptrsOK, funcW_length]
+  | callp dst rt fn pargs args =>
+    simp only [frag, ptrsOK, funcW_length, Bool.and_eq_true, Bool.or_eq_true] at hp ⊢
+    exact ⟨⟨Or.inl rfl, ha⟩, hp⟩
+  | pload d dt k t w c0 x =>
+    simp only [ptrsOK, Bool.and_eq_true, decide_eq_true_eq] at hp
+    simp only [frag, Bool.and_eq_true, decide_eq_true_eq, funcW_length, funcW_get]
+    exact ⟨hp.1.1, hp.1.2, hp.2⟩
+  | _ => simp_all [frag, arrsOK, ptrsOK, funcW_length]
 
 /-- Executions of at most `fuel` are simulated (see `Post`). -/
 def SimStmt (T : Stat) (fuel : Nat) : Prop :=
   ∀ (st : Stmt) (s : Store) (out : CSem2.Outcome) (lp : Bool × Bool) (brk cont : String) (c : SCtx)
     (nd nd' : Nat) (pre post : List Item) (env : Env) (M : Mem),
     exec T.S.cs T.P fuel s st = some out →
-    frag T.P T.cnts st = true →
+    frag T.P T.cnts T.W st = true →
     Stmt.wt T.vtys T.ret lp.1 lp.2 nd st = some nd' →
     Pos T c nd pre →
     Ext T (funcstmt T.S.cs brk cont st c).ctx →
     T.S.its = pre ++ (funcstmt T.S.cs brk cont st c).items ++ post →
     ((lp.1 = true → CanJump T.S brk) ∧ (lp.2 = true → CanJump T.S cont)) →
-    SInv T.M0 T.S.cs T.cnts T.σ T.vtys s env M →
+    SInv T.M0 T.S.cs T.cnts T.W T.σ T.vtys s env M →
     Post T lp brk cont (T.at env M pre) (pre ++ (funcstmt T.S.cs brk cont st c).items)
       (funcstmt T.S.cs brk cont st c).ctx out
 
@@ -216,7 +284,7 @@ variable (T : Stat) {s : Store} {out : CSem2.Outcome} {lp : Bool × Bool} {brk c
   {nd nd' : Nat} {pre post : List Item} {env : Env} {M : Mem}
 
 theorem sim_skip (n : Nat) (hex : exec T.S.cs T.P (n + 1) s .skip = some out) (hp : Pos T c nd pre)
-    (inv : SInv T.M0 T.S.cs T.cnts T.σ T.vtys s env M) :
+    (inv : SInv T.M0 T.S.cs T.cnts T.W T.σ T.vtys s env M) :
     Post T lp brk cont (T.at env M pre) (pre ++ (funcstmt T.S.cs brk cont .skip c).items)
       (funcstmt T.S.cs brk cont .skip c).ctx out := by
   simp only [exec, Option.some.injEq] at hex
@@ -226,7 +294,7 @@ theorem sim_skip (n : Nat) (hex : exec T.S.cs T.P (n + 1) s .skip = some out) (h
 
 theorem sim_break (n : Nat) (hex : exec T.S.cs T.P (n + 1) s .break_ = some out)
     (hwt : Stmt.wt T.vtys T.ret lp.1 lp.2 nd .break_ = some nd') (hp : Pos T c nd pre)
-    (inv : SInv T.M0 T.S.cs T.cnts T.σ T.vtys s env M) :
+    (inv : SInv T.M0 T.S.cs T.cnts T.W T.σ T.vtys s env M) :
     Post T lp brk cont (T.at env M pre) (pre ++ (funcstmt T.S.cs brk cont .break_ c).items)
       (funcstmt T.S.cs brk cont .break_ c).ctx out := by
   simp only [exec, Option.some.injEq] at hex
@@ -242,7 +310,7 @@ theorem sim_break (n : Nat) (hex : exec T.S.cs T.P (n + 1) s .break_ = some out)
 
 theorem sim_continue (n : Nat) (hex : exec T.S.cs T.P (n + 1) s .continue_ = some out)
     (hwt : Stmt.wt T.vtys T.ret lp.1 lp.2 nd .continue_ = some nd') (hp : Pos T c nd pre)
-    (inv : SInv T.M0 T.S.cs T.cnts T.σ T.vtys s env M) :
+    (inv : SInv T.M0 T.S.cs T.cnts T.W T.σ T.vtys s env M) :
     Post T lp brk cont (T.at env M pre) (pre ++ (funcstmt T.S.cs brk cont .continue_ c).items)
       (funcstmt T.S.cs brk cont .continue_ c).ctx out := by
   simp only [exec, Option.some.injEq] at hex
@@ -261,7 +329,7 @@ theorem sim_continue (n : Nat) (hex : exec T.S.cs T.P (n + 1) s .continue_ = som
 theorem sim_label (n : Nat) (st : Stmt) (hst : (∃ u, st = .case_ u) ∨ st = .default_)
     (hex : exec T.S.cs T.P (n + 1) s st = some out) (hp : Pos T c nd pre)
     (hits : T.S.its = pre ++ (funcstmt T.S.cs brk cont st c).items ++ post)
-    (inv : SInv T.M0 T.S.cs T.cnts T.σ T.vtys s env M) :
+    (inv : SInv T.M0 T.S.cs T.cnts T.W T.σ T.vtys s env M) :
     Post T lp brk cont (T.at env M pre) (pre ++ (funcstmt T.S.cs brk cont st c).items)
       (funcstmt T.S.cs brk cont st c).ctx out := by
   rcases hst with ⟨u, rfl⟩ | rfl
@@ -280,7 +348,7 @@ theorem sim_label (n : Nat) (st : Stmt) (hst : (∃ u, st = .case_ u) ∨ st = .
 
 theorem sim_decl_none (n : Nat) (i : Nat) (t : CSem.Ty)
     (hex : exec T.S.cs T.P (n + 1) s (.decl i t none) = some out) (hp : Pos T c nd pre)
-    (inv : SInv T.M0 T.S.cs T.cnts T.σ T.vtys s env M) :
+    (inv : SInv T.M0 T.S.cs T.cnts T.W T.σ T.vtys s env M) :
     Post T lp brk cont (T.at env M pre) (pre ++ (funcstmt T.S.cs brk cont (.decl i t none) c).items)
       (funcstmt T.S.cs brk cont (.decl i t none) c).ctx out := by
   simp only [exec, Option.some.injEq] at hex
@@ -291,12 +359,13 @@ theorem sim_decl_none (n : Nat) (i : Nat) (t : CSem.Ty)
 /-- the store after an expression has been evaluated into `oe.val` -/
 theorem sim_store (k : Nat) (t : CSem.Ty) (val : Val) (slot : Nat) {pos : List Item}
     (hits : T.S.its = pos ++ storeIns t val slot :: post) (hslot : T.σ.getD k 0 = slot)
-    (hkt : T.vtys[k]? = some t) {v : Int} {r : RVal} (hval : readVal T.S.p env val = .ok r)
+    (hkt : T.vtys[k]? = some t) (hWk : T.W.length ≤ k) {v : Int} {r : RVal}
+    (hval : readVal T.S.p env val = .ok r)
     (hv : InRange (t.intTy T.S.cs) v) (hr : Rep t v r)
-    (inv : SInv T.M0 T.S.cs T.cnts T.σ T.vtys s env M) :
+    (inv : SInv T.M0 T.S.cs T.cnts T.W T.σ T.vtys s env M) :
     ∃ M', T.Reach 1 (T.at env M pos) (T.at env M' (pos ++ [storeIns t val slot])) ∧
-      SInv T.M0 T.S.cs T.cnts T.σ T.vtys (s.set k (some v)) env M' := by
-  obtain ⟨a, M', h1, h2, h3⟩ := inv.store hkt hv (storeVal_of_rep hr)
+      SInv T.M0 T.S.cs T.cnts T.W T.σ T.vtys (s.set k (some v)) env M' := by
+  obtain ⟨a, M', h1, h2, h3⟩ := inv.store hkt hWk hv (storeVal_of_rep hr)
   rw [hslot] at h1
   exact ⟨M', run_nores T hits (readVals_two hval (readVal_tmp h1)) h2, h3⟩
 
